@@ -1789,17 +1789,17 @@ V(id='c29-verify-nan-passes', prop='C29', file='mpmath/calculus/optimization.py'
   old="        if verify and not norm(f(*xl))**2 <= tol:", new="        if verify and norm(f(*xl))**2 > tol:",
   expect='fire:R-R1:findroot')
 V(id='c29-mnewton-unguarded-division', prop='C29', file='mpmath/calculus/optimization.py',
-  old="            if dfx == 0:\n                # stationary point: near a multiple root, f is down to\n                # rounding noise and x cannot be improved\n                break\n",
+  old="            if dfx == 0:\n                # stationary point: near a multiple root, f is down to\n                # rounding noise and x cannot be improved\n                yield x, self.ctx.zero\n                break\n",
   new="", expect='fire:R-R5:MNewton.__iter__')
 V(id='c29-multiplicity-last-index', prop='C29', file='mpmath/calculus/optimization.py',
   old="    else:\n        # all maxsteps derivatives vanish\n        i = maxsteps\n    return i", new="    return i",
   expect='fire:R-M1:multiplicity')
 V(id='c29-polyroots-exact-sort', prop='C29', file='mpmath/calculus/polynomials.py',
-  old="        order = sorted(range(deg), key=lambda i: (imrank[i], rerank[i],\n            abs(ctx._im(roots[i])), ctx._re(roots[i])))",
-  new="        order = sorted(range(deg), key=lambda i: (abs(ctx._im(roots[i])), ctx._re(roots[i])))",
+  old="        order = sorted(range(deg), key=lambda i: (ctx._im(roots[i]) != 0,\n            imrank[i], rerank[i],\n            abs(ctx._im(roots[i])), ctx._re(roots[i])))",
+  new="        order = sorted(range(deg), key=lambda i: (ctx._im(roots[i]) != 0, abs(ctx._im(roots[i])), ctx._re(roots[i])))",
   expect='fire:R-P3:polyroots')
 V(id='c29-polyroots-ranks-swapped', prop='C29', file='mpmath/calculus/polynomials.py',
-  old="key=lambda i: (imrank[i], rerank[i],", new="key=lambda i: (rerank[i], imrank[i],",
+  old="            imrank[i], rerank[i],\n", new="            rerank[i], imrank[i],\n",
   expect='fire:R-P3:polyroots')
 V(id='c29-polyroots-order-filters', prop='C29', file='mpmath/calculus/polynomials.py',
   old="        roots = [roots[i] for i in order]", new="        roots = [roots[i] for i in order if roots[i] is not None]",
@@ -2360,3 +2360,17 @@ V(id='c15-benign-gamma-strip-wider', prop='C15', file='mpmath/libmp/libmpi.py',
 V(id='c16-contains-rerounded-container', prop='C16', file='mpmath/ctx_iv.py',
   old="        return (self.a <= t.a) and (t.b <= self.b)", new="        s = +self\n        return (s.a <= t.a) and (t.b <= s.b)",
   expect='fire:F-R4:__contains__')
+
+# ---- C29 R-R5 / R-P3 (fixes 107cd1c, fa53b7d) ----
+V(id='c29-mnewton-stationary-exit-without-yield', prop='C29', file='mpmath/calculus/optimization.py',
+  old="                # rounding noise and x cannot be improved\n                yield x, self.ctx.zero\n                break",
+  new="                # rounding noise and x cannot be improved\n                break", expect='fire:R-R5:MNewton')
+V(id='c29-mnewton-combined-denominator-unguarded', prop='C29', file='mpmath/calculus/optimization.py',
+  old="            d = dfx - fx * d2fx / dfx\n            if d == 0:\n                # likewise: all of f, f', f'' are rounding noise\n                yield x, self.ctx.zero\n                break\n            x -= fx / d",
+  new="            x -= fx / (dfx - fx * d2fx / dfx)", expect='fire:R-R5:MNewton')
+V(id='c29-polyroots-no-exact-real-key', prop='C29', file='mpmath/calculus/polynomials.py',
+  old="        order = sorted(range(deg), key=lambda i: (ctx._im(roots[i]) != 0,\n            imrank[i], rerank[i],", new="        order = sorted(range(deg), key=lambda i: (\n            imrank[i], rerank[i],",
+  expect='fire:R-P3:polyroots')
+V(id='c29-polyroots-reals-last', prop='C29', file='mpmath/calculus/polynomials.py',
+  old="        order = sorted(range(deg), key=lambda i: (ctx._im(roots[i]) != 0,", new="        order = sorted(range(deg), key=lambda i: (ctx._im(roots[i]) == 0,",
+  expect='fire:R-P3:polyroots')
